@@ -1,4 +1,5 @@
 import Tulz.Props.C01
+import Tulz.Proofs.Rwp.Trace
 /-
   C03 — rwp::Resource: FIFO fairness, waiting requests are never overtaken.
 
@@ -35,6 +36,16 @@ theorem C03_admitted_together_are_readers (n : Nat) (s : State) (h : Reach n s) 
   · cases kj with
     | read => exact hkj
     | write => exact absurd e2.symm hnw
+
+/-- **C03 on executions** (restated from `Proofs/Rwp/Trace.lean`): if `a` was parked and unadmitted in a reachable
+    state in which `b` had no request outstanding, then in every later state in which `b` is inside the lock, that
+    request of `a` (identified by its arrival stamp) is no longer pending — a later request is never granted
+    before an earlier waiting one. Readers granted together are the case where both are inside. -/
+theorem C03_never_granted_before_earlier_waiter (n : Nat) (y1 y2 : YState) (h1 : YReach n y1) (r : YRun y1 y2)
+    (a b ida ida' sa : Nat) (ha : pendingAt y1.base a ida) (hsa : y1.stamps[a]? = some sa)
+    (hb : y1.base.ths[b]? = some .idle) (hin : insideAt y2.base b) :
+    ¬ (pendingAt y2.base a ida' ∧ y2.stamps[a]? = some sa) :=
+  C03_trace n y1 y2 h1 r a b ida ida' sa ha hsa hb hin
 
 /-! non-vacuity: writer 0 holds, reader 1 pending (stamp 1), writer 2 pending behind it (stamp 2) -/
 example : ∃ y, YReach 3 y ∧ pendingAt y.base 1 0 ∧ pendingAt y.base 2 1 ∧ insideAt y.base 0 := by
